@@ -476,11 +476,15 @@ def run(ctx):
     ctx.attempt(r147, ctx)
     ctx.rule("R-14.8", "load_path adds one frame per stored row by an operation that cannot refuse (same length after reloading)", floor=1)
     ctx.attempt(r148, ctx)
+    ctx.rule("R-14.9", "per-iteration data of the storing / loading loops is not taken from an earlier iteration (a local defined only on some paths of a loop and read on all)", floor=5)
+    from .shared import stale_iteration_value
+    ctx.attempt(stale_iteration_value, ctx, "R-14.9", [FORMATTER, PATH], None, " (a frame of the stored path is given another frame's file reference, so the live path no longer matches what load_path reads back)")
     from .shared import stale_loop_variable
     ctx.attempt(stale_loop_variable, ctx, "R-14.6", [FORMATTER, PATH], None, " (another frame / file than the one being stored or loaded is handled)")
 
 
 VARIANTS = [
+    B("c14-destination-from-earlier-frame", FORMATTER, "            source[pos_file] = dest\n        dest = source[pos_file]\n        new_pos.append((dest, idx))", "            source[pos_file] = dest\n        new_pos.append((dest, idx))", "R-14.9", control=True, why="seeded C14_g"),
     B("c14-load-through-refusing-append", PATH, "        frame.vel_rev = snapshot[3]\n        path.phasepoints.append(frame)", "        frame.vel_rev = snapshot[3]\n        path.append(frame)", "R-14.8", control=True, why="seeded C14_f"),
     K("c14-keep-load-append-alias", PATH, "    path = Path()\n    for snapshot, order in zip(traj[\"data\"], orderdata):", "    path = Path()\n    frames = path.phasepoints\n    for snapshot, order in zip(traj[\"data\"], orderdata):", also=[(PATH, "        frame.vel_rev = snapshot[3]\n        path.phasepoints.append(frame)", "        frame.vel_rev = snapshot[3]\n        frames.append(frame)")]),
     B("c14-path-files-appended", FORMATTER, 'with open(full_path, mode="w", encoding="utf8") as output:', 'with open(full_path, mode="a", encoding="utf8") as output:', "R-14.7", control=True, why="seeded C14_c"),
